@@ -87,12 +87,12 @@ Definition nth_usize {A} (xs : list A) (z : Z) : option A :=
 
 Definition to_acomp (e : expr) : acomp :=
   match e with
-  | ENone => ANone | EBytes b => ABytes b | EString s => AString s | ENumber z => ANumber z | _ => AOther
+  | ENone => ANone | EBytes b => ABytes b | EString s => AString s | ENumber z => ANumber z | EHash h => AHash h | _ => AOther
   end.
 Definition to_asset_exprs (xs : list (expr * expr * expr)) : list asset_expr :=
   map (fun x => (to_acomp (fst (fst x)), to_acomp (snd (fst x)), to_acomp (snd x))) xs.
 Definition acomp_to_expr (c : acomp) : expr :=
-  match c with ANone => ENone | ABytes b => EBytes b | AString s => EString s | ANumber z => ENumber z | AOther => ENone end.
+  match c with ANone => ENone | ABytes b | AHash b => EBytes b | AString s => EString s | ANumber z => ENumber z | AOther => ENone end.
 (** From<CanonicalAssets> for Vec<AssetExpr>; [ord] = hash-map iteration order (canonical: sorted) *)
 Definition assets_to_exprs (ord : list (asset_class * Z)) : list (expr * expr * expr) :=
   map (fun kv => (acomp_to_expr (class_policy kv.1), acomp_to_expr (class_name kv.1), ENumber kv.2)) ord.
